@@ -130,13 +130,14 @@ func killChild(args []string) int {
 		close(ahead)
 	}()
 	i := 0
+	cb := newCallerBufs()
 	for p := range ahead {
 		if p.err != nil {
 			fmt.Fprintf(jf, "X materialise %v\n", p.err)
 			return 3
 		}
 		jw("B " + strconv.Itoa(i) + "\n") // named before it is done
-		if err := doWrite(ctx, st, p.op, p.mt); err != nil {
+		if err := doWrite(ctx, st, p.op, p.mt, cb); err != nil {
 			if isEnvErr(err) {
 				fmt.Fprintf(jf, "X env %d %s\n", i, oneLine(err))
 				return 3
